@@ -21,11 +21,11 @@ import (
 )
 
 const (
-	hbTimeout  = 90 * time.Millisecond // HeartbeatTimeout of servers whose behaviour contains a Tick
-	hbSweep    = 10 * time.Millisecond // CleanupInterval (the real sweep ticker)
-	tickLength = 3 * hbTimeout         // a Tick = three timeouts of silence for everybody not kept alive
-	hbEvery    = hbTimeout / 6         // heartbeat period of the connections kept alive during a Tick
-	segBudget  = hbTimeout / 3         // a tick-free segment must finish well inside one timeout
+	hbTimeout  = 120 * time.Millisecond // HeartbeatTimeout of servers whose behaviour contains a Tick
+	hbSweep    = 10 * time.Millisecond  // CleanupInterval (the real sweep ticker)
+	tickLength = 3 * hbTimeout          // a Tick = three timeouts of silence for everybody not kept alive
+	hbEvery    = hbTimeout / 6          // heartbeat period of the connections kept alive during a Tick
+	segBudget  = hbTimeout / 3          // a tick-free segment must finish well inside one timeout
 )
 
 type expT struct {
@@ -549,7 +549,7 @@ func drive(env *fw.Env, b fw.Behaviour) *fw.Trace {
 func login(id string) opT { return opT{Op: "Login", ID: id, Type: "control"} }
 
 func parBehaviours(env *fw.Env) []json.RawMessage {
-	rounds := 150
+	rounds := 120
 	if env.Tier == "thorough" {
 		rounds = 1500
 	}
@@ -626,6 +626,13 @@ func selfTest(env *fw.Env, acc []*fw.Trace) []*fw.Trace {
 	return out
 }
 
+func withTimeout(d time.Duration, jobs []fw.TLCJob) []fw.TLCJob {
+	for i := range jobs {
+		jobs[i].Timeout = d
+	}
+	return jobs
+}
+
 func main() {
 	// the tree the model describes: tunnox-core with patches/C07-1 and C07-2 (the configurations
 	// with FIXES = {} / {"oneIdentity"} document the tree before them, invariants masked by the
@@ -635,11 +642,12 @@ func main() {
 		ID:        "C07",
 		DesignRef: "DESIGN.md §5 C07",
 		ModelJobs: func(env *fw.Env) []fw.TLCJob {
-			lv, lvU, lvS := "10", "8", "12"
+			lv, lvU, lvS := "10", "8", "10"
 			if env.Tier == "thorough" {
-				lv, lvU, lvS = "99", "99", "99"
+				lv, lvU, lvS = "99", "12", "99" // 99 = complete state graph
 			}
-			return []fw.TLCJob{
+			to := 40 * time.Minute // generous: the machine may be shared
+			return withTimeout(to, []fw.TLCJob{
 				{Name: "registry ops, tree with C07-1 and C07-2 (strict invariants)", Module: "Session", Cfg: "Session_c07.cfg",
 					Consts: map[string]string{"FIXES": fixes, "LEVEL": lv, "EMIT": `"no"`, "INV": "C07Inv C07One"}},
 				{Name: "registry ops, tree without patches (invariants masked by the named deviation)", Module: "Session", Cfg: "Session_c07.cfg",
@@ -648,25 +656,25 @@ func main() {
 					Consts: map[string]string{"FIXES": fixes, "LEVEL": lvS, "INV": "C07Inv C07One"}},
 				{Name: "interleaved critical sections, tree with C07-1 only (login race masked)", Module: "Session", Cfg: "Session_split.cfg",
 					Consts: map[string]string{"FIXES": `{"oneIdentity"}`, "LEVEL": lvS, "INV": "C07Inv C07OneMasked"}},
-			}
+			})
 		},
 		GenJobs: func(env *fw.Env) []fw.TLCJob {
 			lv, cfg, sims, depth := "6", "Session_c07.cfg", "num=300", 14
 			if env.Tier == "thorough" {
 				lv, cfg, sims, depth = "7", "Session_c07t.cfg", "num=3000", 20
 			}
-			return []fw.TLCJob{
+			return withTimeout(40*time.Minute, []fw.TLCJob{
 				{Name: "gen:transitions", Module: "Session", Cfg: cfg, Workers: 8,
 					Consts: map[string]string{"FIXES": fixes, "LEVEL": lv, "EMIT": `"all"`, "INV": "C07Inv C07One"}},
 				{Name: "gen:simulate", Module: "Session", Cfg: cfg, Workers: 4, Simulate: sims, Depth: depth + 1, Seed: env.Seed,
 					Consts: map[string]string{"FIXES": fixes, "LEVEL": fmt.Sprint(depth), "EMIT": `"last"`, "INV": "C07Inv C07One"}},
-			}
+			})
 		},
 		MaxBeh: func(env *fw.Env) int {
 			if env.Tier == "thorough" {
 				return 60000
 			}
-			return 5000
+			return 3500
 		},
 		ExtraBeh:    parBehaviours,
 		Drive:       drive,
@@ -688,7 +696,7 @@ func main() {
 			"concurrent login/close/kick rounds judged at quiescence; non-trivial = at least 3 operations",
 		Assumptions: []string{
 			"the protocol adapter's read loop is emulated: HandlePacket per packet, CloseConnection when the transport is closed (adapter.cleanupConnection)",
-			"heartbeat timeouts are realised with HeartbeatTimeout=90ms and the real sweep ticker; behaviours that overran the margin are discarded",
+			"heartbeat timeouts are realised with HeartbeatTimeout=120ms and the real sweep ticker; behaviours that overran the margin are discarded",
 			"UnregisterForTunnel is driven through ClientRegistry.Unregister directly (what handleTunnelOpen calls), not through a full tunnel open",
 		},
 		TrustedBase: []string{"TLC", "spec/SessionTraceReg.tla as the reading of the C07 statement", "srvkit fake transport and name mapping"},
